@@ -13,6 +13,8 @@ Candidate statements are ASTs in the wire format of props/dslgen.py.  Every cand
 from __future__ import annotations
 
 import collections
+import datetime
+import decimal
 import functools
 import itertools
 import multiprocessing
@@ -67,6 +69,169 @@ def query(src, sel=(), pre=None, grp=(), post=None, order=(), rows=None):
 
 
 ROWNUMBER = ('expr', 'rownumber')
+
+# ---- python values (literals beyond the four of the shared AST; kind.reflect) -------------------------------------------
+#: one sample value per python type `kind.reflect` distinguishes (keys = constructors of the Lean `PyTag`)
+PY_SAMPLE = {'bool': True, 'int': 7, 'float': 1.5, 'str': 'a', 'decimal': decimal.Decimal('1.5'), 'date': datetime.date(2020, 1, 2),
+             'datetime': datetime.datetime(2020, 1, 2, 3, 4, 5), 'none': None, 'seq': [7]}
+#: values that are equal / hash alike across types come first: a cache keyed by value would mix them up
+REFLECT_SAMPLES = (True, 1, 1.0, decimal.Decimal(1), False, 0, 0.0, -0.0, decimal.Decimal(0), -1, 2 ** 70, 1.5, float('inf'), 'a', '', '1',
+                   'True', decimal.Decimal('1.5'), datetime.date(2020, 1, 2), datetime.datetime(2020, 1, 2), datetime.datetime(2020, 1, 2, 3, 4, 5),
+                   None, [], (), (1,), [True], (1.5,), ('a',), ((1,),), (None,), ((),), (datetime.date(2020, 1, 2),), (False, 0))
+DIRECTION_SPELLINGS = ('asc', 'ascending', 'desc', 'descending', 'ASC', 'Asc', 'aSc', 'ASCENDING', 'Ascending', 'DESC', 'Desc', 'dEsC',
+                       'DESCENDING', 'Descending', '', 'a', 'as', 'asce', 'ascend', 'des', 'descend', 'up', 'down', ' asc', 'asc ',
+                       'ascending ', 'bogus', 'ASCENDING_', '<ascending>', 'Direction.ASCENDING', 'asc,desc', 'none')
+JOIN_SPELLINGS = ('inner', 'left', 'right', 'full', 'cross', 'INNER', 'Inner', 'LEFT', 'Cross', 'CROSS', 'outer', 'full outer', 'natural',
+                  '', ' inner', 'inner ', 'cross ', 'Kind.INNER', '<inner-join>', 'inner-join', 'none')
+
+
+def pyval_ast(v) -> tuple:
+    """python value -> wire form `PY` of the C07 driver"""
+    if isinstance(v, bool):
+        return ('bool', v)
+    if isinstance(v, int):
+        return ('int', v)
+    if isinstance(v, float):
+        return ('float', repr(v))
+    if isinstance(v, str):
+        return ('str', v)
+    if isinstance(v, decimal.Decimal):
+        return ('decimal', str(v))
+    if isinstance(v, datetime.datetime):
+        return ('datetime', v.isoformat())
+    if isinstance(v, datetime.date):
+        return ('date', v.isoformat())
+    if v is None:
+        return ('none',)
+    if isinstance(v, tuple):
+        return ('seq', pyval_ast(v[0])) if v else ('emptyseq',)
+    if isinstance(v, list):  # same kind as the tuple, but unhashable (finding C07-F4)
+        return ('list', pyval_ast(v[0])) if v else ('emptyseq',)
+    raise ValueError(f'value outside the modelled alphabet: {v!r}')
+
+
+def pyval_of(ast):
+    """wire form -> python value"""
+    tag = ast[0]
+    if tag == 'bool':
+        return bool(ast[1]) if not isinstance(ast[1], str) else ast[1] == 'true'
+    if tag == 'int':
+        return int(ast[1])
+    if tag == 'float':
+        return float(ast[1])
+    if tag == 'str':
+        return str(ast[1])
+    if tag == 'decimal':
+        return decimal.Decimal(ast[1])
+    if tag == 'date':
+        return datetime.date.fromisoformat(ast[1])
+    if tag == 'datetime':
+        return datetime.datetime.fromisoformat(ast[1])
+    if tag == 'none':
+        return None
+    if tag == 'emptyseq':
+        return ()
+    if tag == 'seq':
+        return (pyval_of(ast[1]),)
+    if tag == 'list':
+        return [pyval_of(ast[1])]
+    raise ValueError(f'bad python value {ast!r}')
+
+
+def pyval_lean(v) -> str:
+    a = pyval_ast(v)
+    tag = a[0]
+    if tag == 'bool':
+        return f'.bool {"true" if a[1] else "false"}'
+    if tag == 'int':
+        return f'.int ({a[1]})'
+    if tag in ('float', 'str', 'decimal', 'date', 'datetime'):
+        return f'.{tag} "{a[1]}"'
+    if tag == 'none':
+        return '.none'
+    if tag == 'emptyseq':
+        return '.emptySeq'
+    return '.seq (' + pyval_lean(v[0]) + ')'
+
+
+def model_py(a) -> tuple:
+    """wire form for the Lean driver: a list is the sequence it is (the model has no notion of hashability)"""
+    if a[0] in ('seq', 'list'):
+        return ('seq', model_py(a[1]))
+    return a
+
+
+def model_ast(ast):
+    if isinstance(ast, tuple):
+        if len(ast) == 2 and ast[0] == 'py' and isinstance(ast[1], tuple):
+            return ('py', model_py(ast[1]))
+        return tuple(model_ast(a) for a in ast)
+    return ast
+
+
+def has_list_literal(ast) -> bool:
+    if isinstance(ast, tuple):
+        if ast and ast[0] == 'list' and len(ast) == 2:
+            return True
+        return any(has_list_literal(a) for a in ast)
+    return False
+
+
+#: the documented kind of a python value by its type (docs/dsl/schema.rst, kind.py docstrings): the most specific type
+PY_KIND = {'bool': 'boolean', 'int': 'integer', 'float': 'float', 'str': 'string', 'decimal': 'decimal', 'date': 'date',
+           'datetime': 'timestamp'}
+
+
+def lit_of(v) -> tuple:
+    """the literal of a python value in the AST: the four plain types in the form of the shared AST (ONE spelling per
+    literal — the oracle compares ASTs structurally), every other value as ('lit', ('py', PY))"""
+    a = pyval_ast(v)
+    return ('lit', a) if a[0] in ('bool', 'int', 'float', 'str') else ('lit', ('py', a))
+
+
+def py_kind(a):
+    """documented kind of a python value in wire form; None where it has none"""
+    if a[0] in PY_KIND:
+        return PY_KIND[a[0]]
+    if a[0] in ('seq', 'list'):
+        inner = py_kind(a[1])
+        return None if inner is None else ('array', inner)
+    return None
+
+
+def lit_kind(lit):
+    """documented kind of a literal of the AST: the four plain forms or ('py', PY)"""
+    if lit[0] == 'py':
+        return py_kind(lit[1])
+    return PY_KIND[lit[0]]
+
+
+def py_repr(a) -> str:
+    """the tagged repr the Lean model keeps different values apart by (`PyVal.repr`)"""
+    tag = a[0]
+    if tag == 'bool':
+        return 'True' if a[1] in (True, 'true') else 'False'
+    if tag in ('int', 'float', 'str'):
+        return str(a[1])
+    if tag == 'decimal':
+        return 'Decimal:' + a[1]
+    if tag in ('date', 'datetime'):
+        return tag + ':' + a[1]
+    if tag == 'none':
+        return 'None'
+    if tag == 'emptyseq':
+        return '[]'
+    return '[' + py_repr(a[1]) + ',…]'  # ('seq', x) and ('list', x)
+
+
+def _kind_lean(k) -> str:
+    if isinstance(k, str):
+        return '.' + k
+    if k[0] == 'array':
+        return '(.array ' + _kind_lean(k[1]) + ')'
+    if k[0] == 'map':
+        return '(.map ' + _kind_lean(k[1]) + ' ' + _kind_lean(k[2]) + ')'
+    raise ValueError(k)
 
 # ---- the documented grammar (independent oracle) ----------------------------------------------------------------
 NUMERIC = frozenset({'integer', 'float', 'decimal'})
@@ -211,7 +376,7 @@ class Spec:
     def _kind(self, f):
         tag = f[0]
         if tag == 'lit':
-            return {'int': 'integer', 'bool': 'boolean', 'str': 'string', 'float': 'float'}[f[1][0]]
+            return lit_kind(f[1])
         if tag == 'elem':
             found = None
             for n, k in self.sig(f[1]):
@@ -245,6 +410,8 @@ class Spec:
     def feature_rules(self, f, out: list, where: str) -> None:
         tag = f[0]
         if tag == 'lit':
+            if lit_kind(f[1]) is None:  # `Literal(None)`, `Literal([])`: a ValueError of python-level typing, no statement
+                out.append(('not-a-script', where))
             return
         if tag == 'elem':
             self.source_rules(f[1], out)
@@ -392,11 +559,18 @@ def elements_in(ast):
 
 # ---- the implementation ------------------------------------------------------------------------------------------
 class Builder(g.Builder):
-    """dslgen.Builder + the join kind handed over as a plain string (`typing.Union[Join.Kind, str]`)."""
+    """dslgen.Builder + the join kind handed over as a plain string (`typing.Union[Join.Kind, str]`) + literals of any
+    python value (`('lit', ('py', PY))`)."""
 
     def __init__(self, via='chain', ops='operator', elem='getitem', kindstr=False):
         super().__init__(via=via, ops=ops, elem=elem)
         self.kindstr = kindstr
+
+    @staticmethod
+    def value(lit):
+        if lit[0] == 'py':
+            return pyval_of(lit[1])
+        return g.Builder.value(lit)
 
     def source(self, ast):
         from forml.io import dsl
@@ -414,15 +588,58 @@ class Builder(g.Builder):
 
 
 VARIANTS = tuple(itertools.product(('ctor', 'chain'), ('class', 'operator'), ('ctor', 'getitem'), (False, True)))
-EXC = {'GrammarError': 'grammar', 'KeyError': 'lookup', 'RecursionError': 'recursion', 'TypeError': 'illtyped', 'ValueError': 'illtyped'}
+EXC = {'GrammarError': 'grammar', 'KeyError': 'lookup', 'RecursionError': 'recursion', 'TypeError': 'illtyped', 'ValueError': 'illtyped',
+       'AttributeError': 'illtyped'}
 
 
-def run_impl(case: dict) -> dict:
-    """Build the candidate on the real code; {'outcome': 'ok'|'error', ...}"""
-    ast, variant = case['ast'], case.get('variant', ('ctor', 'class', 'ctor', False))
+def to_ast7(obj):
+    """dslgen.to_ast + literals of any python value.  A literal is read back *with the kind the real object carries*:
+    the four plain types as `('lit', …)` when that kind is the documented one (else, like every other value, as the cast
+    of its repr to the kind it has — which is how the Lean model represents such literals), so a wrong `Literal.kind`
+    shows in the stored structure."""
+    from forml.io import dsl
+    from forml.io.dsl import function
+
+    if isinstance(obj, dsl.Literal):
+        a = pyval_ast(obj.value)
+        kind = g.kind_ast(obj.kind)
+        if a[0] in ('bool', 'int', 'float', 'str') and kind == PY_KIND[a[0]]:
+            return ('lit', g.lit_ast(obj.value))
+        return ('cast', ('lit', ('str', py_repr(a))), kind)
+    if isinstance(obj, (dsl.Any, dsl.Table)):
+        return g.to_ast(obj)
+    if isinstance(obj, dsl.Reference):
+        return ('ref', to_ast7(obj.instance), obj.name)
+    if isinstance(obj, dsl.Join):
+        return ('join', to_ast7(obj.left), to_ast7(obj.right), obj.kind.value, None if obj.condition is None else to_ast7(obj.condition))
+    if isinstance(obj, dsl.Set):
+        return ('set', to_ast7(obj.left), to_ast7(obj.right), obj.kind.value)
+    if isinstance(obj, dsl.Query):
+        return ('query', to_ast7(obj.source), tuple(to_ast7(f) for f in obj.selection),
+                None if obj.prefilter is None else to_ast7(obj.prefilter), tuple(to_ast7(f) for f in obj.grouping),
+                None if obj.postfilter is None else to_ast7(obj.postfilter), tuple(to_ast7(o) for o in obj.ordering),
+                None if obj.rows is None else ('rows', obj.rows.count, obj.rows.offset))
+    if isinstance(obj, dsl.Ordering):
+        return ('ord', to_ast7(obj.feature), 'asc' if obj.direction is dsl.Ordering.Direction.ASCENDING else 'desc')
+    if isinstance(obj, dsl.Aliased):
+        return ('alias', to_ast7(obj.operable), obj.name)
+    if isinstance(obj, dsl.Element):
+        return ('elem', to_ast7(obj.origin), obj.name)
+    if isinstance(obj, function.Cast):
+        return ('cast', to_ast7(obj.value), g.kind_ast(obj.kind))
+    if isinstance(obj, dsl.Window):
+        fn = ('expr', 'rownumber') if isinstance(obj.function, function.RowNumber) else to_ast7(obj.function)
+        return ('window', fn, tuple(to_ast7(p) for p in obj.partition), tuple(to_ast7(o) for o in tuple(obj.ordering)))
+    if isinstance(obj, dsl.Feature) and type(obj).__name__ in g.CLASS_OP:
+        return ('expr', g.CLASS_OP[type(obj).__name__]) + tuple(to_ast7(a) for a in obj)
+    return g.to_ast(obj)
+
+
+def _observe(build) -> dict:
+    """run `build()` on the real code; {'outcome': 'ok'|'error', ...}.  Exceptions of the code under test are behaviour."""
     out: dict = {}
     try:
-        obj = Builder(*variant).build(ast)
+        obj = build()
     except RecursionError:
         return {'outcome': 'error', 'cls': 'RecursionError', 'err': 'recursion'}
     except Exception as e:  # pylint: disable=broad-except
@@ -430,7 +647,7 @@ def run_impl(case: dict) -> dict:
                 'msg': str(e)[:160]}
     out['outcome'] = 'ok'
     try:
-        out['stored'] = g.to_ast(obj)
+        out['stored'] = to_ast7(obj)
     except Exception as e:  # pylint: disable=broad-except
         out['stored'] = f'unreadable:{type(e).__name__}'
     try:
@@ -439,7 +656,63 @@ def run_impl(case: dict) -> dict:
         out['schema'] = ['error', 'recursion']
     except Exception as e:  # pylint: disable=broad-except
         out['schema'] = ['error', EXC.get(type(e).__name__, 'other:' + type(e).__name__)]
+        out['schema_msg'] = str(e)[:120]
     return out
+
+
+def run_api(case: dict) -> dict:
+    """an `api` case on the real code: a chain of `Queryable` calls, or `dsl.Join` with the kind as given"""
+    from forml.io import dsl
+
+    b = Builder('ctor', 'class', 'ctor', False)
+    spec = case['api']
+
+    def direction(a):
+        if a[0] == 'enum':
+            return dsl.Ordering.Direction.ASCENDING if a[1] == 'asc' else dsl.Ordering.Direction.DESCENDING
+        return a[1] if a[0] == 'str' else None
+
+    def term(t):
+        tag = t[0]
+        if tag == 'feat':
+            return b.feature(t[1], toplevel=True)
+        if tag == 'dir':
+            return direction(t[1])
+        if tag == 'pair':
+            return (b.feature(t[1], toplevel=True), direction(t[2]))
+        if tag == 'ordering':
+            return dsl.Ordering(b.feature(t[1], toplevel=True), direction(('enum', t[2])))
+        return 42
+
+    def build():
+        if spec[0] == 'join':
+            _, l, r, kind, cond = spec
+            left, right = b.source(l), b.source(r)
+            condition = None if cond is None else b.feature(cond, toplevel=True)
+            arg = dsl.Join.Kind(kind[1]) if kind[0] == 'enum' else kind[1] if kind[0] == 'str' else None
+            return dsl.Join(left, right, arg, condition)
+        obj = b.source(spec[1])
+        for op in spec[2:]:
+            name = op[0]
+            if name in ('select', 'groupby'):
+                obj = getattr(obj, name)(*[b.feature(f, toplevel=True) for f in op[1:]])
+            elif name in ('where', 'having'):
+                obj = getattr(obj, name)(b.feature(op[1], toplevel=True))
+            elif name == 'orderby':
+                obj = obj.orderby(*[term(t) for t in op[1:]])
+            else:
+                obj = obj.limit(op[1], op[2])
+        return obj
+
+    return _observe(build)
+
+
+def run_impl(case: dict) -> dict:
+    """Build the candidate on the real code; {'outcome': 'ok'|'error', ...}"""
+    if case.get('kind') == 'api':
+        return run_api(case)
+    ast, variant = case['ast'], case.get('variant', ('ctor', 'class', 'ctor', False))
+    return _observe(lambda: Builder(*variant).build(ast))
 
 
 def _impl_chunk(chunk: list) -> list:
@@ -748,6 +1021,26 @@ class Mutator:
                 out.append(('foreign-element:query-of-query', g.replace(ast, path, query(node, (hidden[0],)))))
         return out
 
+    def literal_mutations(self, ast, limit: int = 4) -> list:
+        """a literal replaced by a python value of another type — first of all by one that is equal / hashes alike (1 ->
+        True, 1.0, Decimal(1)) — or by a date / datetime / Decimal / list / None: whether the statement still conforms is
+        for the oracle to say"""
+        out = []
+        spots = [(path, node) for path, sort, node in g.positions(ast) if sort == 'feature' and node[0] == 'lit']
+        for path, node in (self.rng.sample(spots, limit) if len(spots) > limit else spots):
+            old = node[1][1] if node[1][0] == 'py' else node[1]
+            alike = {'int': (True, 1.0, decimal.Decimal(1), False, 0.0), 'bool': (1, 0, 1.0, 0.0), 'float': (1, True, decimal.Decimal('1.5')),
+                     'str': ('1', 1, datetime.date(2020, 1, 1))}.get(old[0], ())
+            picks = [self.rng.choice(alike), self.rng.choice(HISTORY_VALUES)] if alike else [self.rng.choice(HISTORY_VALUES)]
+            for v in picks:
+                a = pyval_ast(v)
+                if a != old:
+                    out.append((f'literal:{old[0]}->{a[0]}', g.replace(ast, path, lit_of(v))))
+        if spots and self.rng.random() < 0.2:
+            path, _ = self.rng.choice(spots)
+            out.append(('literal:none', g.replace(ast, path, ('lit', ('py', self.rng.choice((('none',), ('emptyseq',), ('seq', ('none',)))))))))
+        return out
+
     def all(self, ast) -> list:
         muts = self.clause_mutations(ast) + self.operand_mutations(ast)
         seen, out = {ast}, []
@@ -834,6 +1127,80 @@ def corpus() -> list:
     return out
 
 
+def rich_corpus() -> list:
+    """literals of every python type `kind.reflect` knows, on both sides of the kind rules; sets of sets, references of sets"""
+    sid, sname, sscore, slevel, sact, sborn = (col(S, n) for n in ('id', 'name', 'score', 'level', 'active', 'born'))
+    gid, gtaken = col(G, 'id'), col(G, 'taken')
+    day, stamp, dec = datetime.date(2020, 1, 2), datetime.datetime(2020, 1, 2, 3, 4, 5), decimal.Decimal('1.5')
+
+    def D(v):
+        return lit_of(v)
+
+    def one(f, name='x'):
+        return query(S, [('alias', f, name)])
+
+    kid, kname, krank = (col(K, n) for n in ('id', 'name', 'rank'))
+    q1, q2 = query(K, [kid, kname]), query(C, [col(C, 'id'), col(C, 'name')])
+    s1 = ('set', q1, q2, 'union')
+    s2 = ('set', s1, q1, 'difference')
+    rs = ('ref', s1, 'u')
+    return [
+        ('literal:date-vs-date', query(S, [sid], ('expr', 'lt', sborn, D(day)))),
+        ('comparison-kinds:date-vs-datetime-literal', query(S, [sid], ('expr', 'lt', sborn, D(stamp)))),
+        ('literal:timestamp-vs-datetime', query(G, [gid], ('expr', 'ge', gtaken, D(stamp)))),
+        ('comparison-kinds:timestamp-vs-date-literal', query(G, [gid], ('expr', 'ge', gtaken, D(day)))),
+        ('literal:integer+decimal', one(('expr', 'add', slevel, D(dec)))),
+        ('literal:decimal+integer', one(('expr', 'add', D(dec), slevel))),
+        ('literal:decimal+float', one(('expr', 'mul', D(decimal.Decimal(1)), sscore))),
+        ('literal:score>decimal', query(S, [sid], ('expr', 'gt', sscore, D(dec)))),
+        ('literal:year-of-date', one(('expr', 'year', D(day)), 'y')),
+        ('literal:year-of-datetime', one(('expr', 'year', D(stamp)), 'y')),
+        ('year-kind:decimal-literal', one(('expr', 'year', D(dec)), 'y')),
+        ('arithmetic-kinds:date-literal', one(('expr', 'add', slevel, D(day)))),
+        ('arithmetic-kinds:bool-literal', one(('expr', 'add', slevel, D(True)))),
+        ('logical-kinds:decimal-one', query(S, [sid], ('expr', 'and', ('expr', 'gt', slevel, lit(1)), D(decimal.Decimal(1))))),
+        ('logical-kinds:float-one', query(S, [sid], ('expr', 'and', ('expr', 'gt', slevel, lit(1)), D(1.0)))),
+        ('literal:and-true', query(S, [sid], ('expr', 'and', ('expr', 'gt', slevel, lit(1)), D(True)))),
+        ('literal:active==True', query(S, [sid], ('expr', 'eq', sact, D(True)))),
+        ('comparison-kinds:active==1', query(S, [sid], ('expr', 'eq', sact, D(1)))),
+        ('comparison-kinds:active==1.0', query(S, [sid], ('expr', 'eq', sact, D(1.0)))),
+        ('literal:level==1.0', query(S, [sid], ('expr', 'eq', slevel, D(1.0)))),
+        ('comparison-kinds:level==True', query(S, [sid], ('expr', 'eq', slevel, D(True)))),
+        ('filter-not-boolean:one', query(S, [sid], D(1))),
+        ('filter-not-boolean:one-float', query(S, [sid], D(1.0))),
+        ('filter-not-boolean:zero-decimal', query(S, [sid], D(decimal.Decimal(0)))),
+        ('literal:where-false', query(S, [sid], D(False))),
+        ('literal:none-selected', query(S, [D(None)])),
+        ('literal:empty-tuple-compared', query(S, [sid], ('expr', 'eq', sid, D(())))),
+        ('comparison-kinds:array-literal', query(S, [sid], ('expr', 'eq', sid, D((1, 2))))),
+        ('literal:array==array', query(S, [sid], ('expr', 'eq', D((1,)), D((2,))))),
+        ('comparison-kinds:array-int-vs-array-float', query(S, [sid], ('expr', 'eq', D((1,)), D((1.5,))))),
+        ('comparison-kinds:array-int-vs-array-bool', query(S, [sid], ('expr', 'eq', D((1,)), D((True,))))),
+        ('literal:list==list', query(S, [sid], ('expr', 'eq', D([1]), D([2])))),
+        ('literal:selected', query(S, [('alias', D(day), 'd'), ('alias', D(dec), 'm'), ('alias', D(stamp), 't'), ('alias', D((1.5,)), 'a'),
+                                       ('alias', D(True), 'b'), ('alias', D(1), 'i'), ('alias', D(1.0), 'f')])),
+        ('literal:grouped', query(S, [sname, ('alias', ('expr', 'add', ('expr', 'count', sid), D(decimal.Decimal(1))), 'n')], None, [sname],
+                                  ('expr', 'gt', ('expr', 'sum', sscore), D(dec)))),
+        ('edge:set-of-sets', s2),
+        ('edge:select-from-set-of-sets', query(s2, [kid])),
+        ('set-schemas-differ:set-vs-wider-query', ('set', s1, query(K, [kid, kname, krank]), 'union')),
+        ('set-schemas-differ:set-vs-table', ('set', s1, K, 'intersection')),
+        ('edge:reference-of-set', query(rs)),
+        ('edge:join-with-reference-of-query', ('join', K, ('ref', q2, 'c'), 'inner', ('expr', 'eq', kid, ('elem', ('ref', q2, 'c'), 'id')))),
+        ('foreign-element:join-with-reference-of-query', ('join', K, ('ref', q2, 'c'), 'inner', ('expr', 'eq', kid, ('elem', ('ref', q2, 'd'), 'id')))),
+        ('edge:reference-of-reference-of-query', query(('ref', ('ref', q1, 'a'), 'b'), [('elem', ('ref', q1, 'b'), 'name')])),
+        ('foreign-element:inner-reference-name', query(('ref', ('ref', q1, 'a'), 'b'), [('elem', ('ref', q1, 'a'), 'name')])),
+        ('edge:window-over-aggregate-of-window', query(S, [('alias', ('window', ('expr', 'sum', ('window', ROWNUMBER, (sid,), ())), (sname,), (('ord', sid, 'desc'),)), 'w')])),
+        ('edge:aggregate-of-aggregate', query(S, [('alias', ('expr', 'sum', ('expr', 'max', sscore)), 'm')])),
+        ('aggregate-in-condition:deep', query(S, [sid], ('expr', 'gt', ('expr', 'mul', ('expr', 'abs', ('expr', 'add', ('expr', 'sum', sscore), lit(1))), lit(2)), lit(1)))),
+        ('window-in-condition:deep', query(S, [sid], ('expr', 'gt', ('expr', 'mul', ('expr', 'abs', ('expr', 'add', ('window', ('expr', 'sum', sscore), (sid,), ()), lit(1))), lit(2)), lit(1)))),
+        ('window-in-having:deep', query(S, [sid], None, (), ('expr', 'gt', ('cast', ('expr', 'abs', ('window', ROWNUMBER, (sid,), ())), 'float'), lit(1)))),
+        ('aggregate-in-grouping:deep', query(S, [sid], None, [('expr', 'add', ('cast', ('expr', 'max', slevel), 'integer'), lit(1))])),
+        ('edge:rows-negative', query(S, [sid], None, (), None, (), ('rows', -5, -1))),
+        ('edge:rows-zero', query(S, [sid], None, (), None, (), ('rows', 0, 0))),
+    ]
+
+
 class Small:
     """Statements over a reduced alphabet (two tables, ~20 features): every clause takes every pool item."""
 
@@ -844,7 +1211,8 @@ class Small:
         A, B = self.A, self.B
         a, b, ba, bc = col(A, 'a'), col(A, 'b'), col(B, 'a'), col(B, 'c')
         self.sources = [A, ('ref', A, 'r'), ('join', A, B, 'inner', ('expr', 'eq', a, ba)), ('join', A, B, 'cross', None),
-                        query(A, [a, b]), query(A, [('alias', ('expr', 'add', a, lit(1)), 'x')])]
+                        query(A, [a, b]), query(A, [('alias', ('expr', 'add', a, lit(1)), 'x')]),
+                        ('set', query(A, [a]), query(B, [ba]), 'union'), ('ref', query(A, [a, b]), 'q')]
         self.pool = [a, b, bc, ('elem', ('ref', A, 'r'), 'a'), lit(1), lit(True), ('expr', 'add', a, lit(1)), ('expr', 'gt', a, lit(1)),
                      ('expr', 'gt', b, lit(1)), ('expr', 'eq', b, lit('x')), ('expr', 'sum', a), ('expr', 'count', b),
                      ('expr', 'gt', ('expr', 'sum', a), lit(1)), ('alias', a, 'x'), ('alias', ('expr', 'sum', a), 's'),
@@ -907,10 +1275,338 @@ def short_small(ast):
     return ast
 
 
+# ---- the argument-handling layer: ordering terms, join kinds, chained calls, literal histories --------------------------
+#: the documented spellings of a direction (docs/dsl/query/syntax.rst, <direction>)
+DIR_DOC = {'asc': 'asc', 'ascending': 'asc', 'desc': 'desc', 'descending': 'desc'}
+SPELL = {'asc': ('asc', 'ascending'), 'desc': ('desc', 'descending')}
+
+
+def denote_terms(terms) -> tuple:
+    """the documented meaning of the arguments of `orderby` (docs: `<ordering> ::= <operable> [, <direction>]`, the
+    examples of `Queryable.orderby`: pairs, `Ordering` instances): ('ok' | 'unspecified', orderings) | ('not-a-script',).
+    'unspecified': a spelling the documentation does not list (another case) — the property is silent about it."""
+    out, i, status = [], 0, 'ok'
+
+    def direction(a):
+        if a[0] == 'enum':
+            return a[1]
+        if a[0] == 'str':
+            if a[1] in DIR_DOC:
+                return DIR_DOC[a[1]]
+            if a[1].lower() in DIR_DOC:
+                return ('unspecified', DIR_DOC[a[1].lower()])
+        return None
+
+    while i < len(terms):
+        t = terms[i]
+        if t[0] == 'feat':
+            f = t[1]
+            if i + 1 < len(terms) and terms[i + 1][0] == 'dir' and terms[i + 1][1][0] != 'none':
+                d = direction(terms[i + 1][1])
+                i += 2
+            else:
+                d = 'asc'
+                i += 1
+        elif t[0] == 'pair':
+            f, d = t[1], direction(t[2])
+            i += 1
+        elif t[0] == 'ordering':
+            f, d = t[1], t[2]
+            i += 1
+        else:
+            return ('not-a-script',)
+        if d is None:
+            return ('not-a-script',)
+        if isinstance(d, tuple):
+            status, d = 'unspecified', d[1]
+        out.append(('ord', f, d))
+    return (status, tuple(out))
+
+
+def denote_api(api) -> tuple:
+    """(status, [statement ASTs constructed one after the other]) of an `api` case; status 'ok' | 'unspecified' |
+    'not-a-script'.  A chain constructs one statement per call (`Queryable.<op>` = `Query(...)` with one clause replaced;
+    repeated `where` / `having` AND-combine), a bare origin first becomes `Query(origin)`."""
+    if api[0] == 'join':
+        _, l, r, kind, cond = api
+        if kind[0] == 'enum' or (kind[0] == 'str' and kind[1] in g.JOIN_KINDS):
+            return ('ok', [('join', l, r, kind[1], cond)])
+        return ('not-a-script', [])
+    src, ops = api[1], api[2:]
+    stmts = []
+    if src[0] == 'set':
+        return ('not-a-script', [])
+    if src[0] == 'query':
+        _, base, sel, pre, grp, post, order, rows = src
+        stmts.append(src)
+    else:
+        base, sel, pre, grp, post, order, rows = src, (), None, (), None, (), None
+        if ops:
+            stmts.append(query(base))
+    status = 'ok'
+    for op in ops:
+        name = op[0]
+        if name == 'select':
+            sel = tuple(op[1:])
+        elif name == 'groupby':
+            grp = tuple(op[1:])
+        elif name in ('where', 'having'):
+            old = pre if name == 'where' else post
+            c = op[1]
+            if old is not None:
+                c = ('expr', 'and', c[1] if c[0] == 'alias' else c, old)
+            if name == 'where':
+                pre = c
+            else:
+                post = c
+        elif name == 'orderby':
+            d = denote_terms(op[1:])
+            if d[0] == 'not-a-script':
+                return ('not-a-script', stmts)
+            if d[0] == 'unspecified':
+                status = 'unspecified'
+            order = d[1]
+        else:
+            if not (isinstance(op[1], int) and isinstance(op[2], int)):
+                return ('not-a-script', stmts)
+            rows = ('rows', op[1], op[2])
+        stmts.append(query(base, sel, pre, grp, post, order, rows))
+    if not stmts:
+        stmts.append(src)
+    return (status, stmts)
+
+
+def _case_variant(rng, word: str) -> str:
+    return ''.join(c.upper() if rng.random() < 0.5 else c for c in word)
+
+
+def term_spellings(rng, orderings: tuple) -> list:
+    """[(label, terms)] — spellings of one ordering list: all documented forms and mixtures, then ill-formed ones"""
+    def enum(o):
+        return ('enum', o[2])
+
+    def doc(o):
+        return ('str', rng.choice(SPELL[o[2]]))
+
+    def anycase(o):
+        return ('str', _case_variant(rng, rng.choice(SPELL[o[2]])))
+
+    out = [('pairs-enum', tuple(('pair', o[1], enum(o)) for o in orderings)),
+           ('pairs-str', tuple(('pair', o[1], doc(o)) for o in orderings)),
+           ('pairs-anycase', tuple(('pair', o[1], anycase(o)) for o in orderings)),
+           ('flat-enum', tuple(t for o in orderings for t in (('feat', o[1]), ('dir', enum(o))))),
+           ('flat-str', tuple(t for o in orderings for t in (('feat', o[1]), ('dir', doc(o))))),
+           ('instances', tuple(('ordering', o[1], o[2]) for o in orderings)),
+           ('default-asc', tuple(t for o in orderings for t in ((('feat', o[1]),) if o[2] == 'asc' else (('feat', o[1]), ('dir', doc(o)))))),
+           ('mixed', tuple(t for o in orderings for t in rng.choice(((('pair', o[1], enum(o)),), (('feat', o[1]), ('dir', anycase(o))),
+                                                                    (('ordering', o[1], o[2]),), (('pair', o[1], doc(o)),)))))]
+    if orderings:
+        o = orderings[0]
+        rest = tuple(('pair', x[1], enum(x)) for x in orderings[1:])
+        bad = rng.choice(('bogus', 'up', '', 'asc ', 'ascend', 'as'))
+        out += [('bad-direction-flat', (('feat', o[1]), ('dir', ('str', bad))) + rest),
+                ('bad-direction-pair', (('pair', o[1], ('str', bad)),) + rest),
+                ('pair-none', (('pair', o[1], ('none',)),) + rest),
+                ('direction-first', (('dir', doc(o)), ('feat', o[1])) + rest),
+                ('two-directions', (('feat', o[1]), ('dir', doc(o)), ('dir', doc(o))) + rest),
+                ('instance-then-direction', (('ordering', o[1], o[2]), ('dir', doc(o))) + rest),
+                ('feature-none', (('feat', o[1]), ('dir', ('none',))) + rest),
+                ('junk', rest + (('junk',),)),
+                ('aliased-term', (('pair', ('alias', o[1], 'o'), enum(o)),) + rest),
+                ('aliased-term-flat', (('feat', ('alias', o[1], 'o')), ('dir', doc(o))) + rest),
+                ('aliased-instance', (('ordering', ('alias', o[1], 'o'), o[2]),) + rest),
+                ('aliased-bad-direction', (('feat', ('alias', o[1], 'o')), ('dir', ('str', 'bogus'))) + rest)]
+    return out
+
+
+def api_cases(rng, spec: 'Spec', mut: 'Mutator', gen, n: int) -> list:
+    """`api` cases: (a) every spelling of the ordering terms of conforming queries, also with a foreign / unknown / aliased
+    term at each position; (b) the calls of a statement in canonical order, in random orders (with and without groupby),
+    with repeated calls; (c) join kinds in every spelling with and without condition; (d) row limits of any integers."""
+    out = []
+
+    def add(label, api):
+        out.append({'kind': 'api', 'label': 'api:' + label, 'api': api})
+
+    def ops_of(qast) -> list:
+        _, _src, sel, pre, grp, post, order, rows = qast
+        ops = []
+        if sel:
+            ops.append(('select',) + tuple(sel))
+        if pre is not None:
+            ops.append(('where', pre))
+        if grp:
+            ops.append(('groupby',) + tuple(grp))
+        if post is not None:
+            ops.append(('having', post))
+        if order:
+            ops.append(('orderby',) + tuple(('pair', o[1], ('enum', o[2])) for o in order))
+        if rows is not None:
+            ops.append(('limit', rows[1], rows[2]))
+        return ops
+
+    bases = []
+    guard = 0
+    while len(bases) < n and guard < 20 * n:
+        guard += 1
+        base = gen.query(rng.choice((0, 1, 1)), limit=True)
+        if spec.violations(base) or base[1][0] == 'set':
+            continue
+        bases.append(base)
+    for base in bases:
+        _, src, sel, pre, grp, post, order, rows = base
+        cols = mut.columns(src)
+        if not order and cols:
+            order = tuple(('ord', c, rng.choice(('asc', 'desc'))) for c in rng.sample(cols, min(len(cols), rng.choice((1, 2)))))
+        if grp:  # ordering terms of a grouped query: any operable over the source is fine for the grammar
+            pass
+        head = [op for op in ops_of(base) if op[0] not in ('orderby', 'limit')]
+        tail = [op for op in ops_of(base) if op[0] == 'limit']
+        # (a) spellings of the ordering
+        for label, terms in term_spellings(rng, order):
+            add('ordering:' + label, ('chain', src) + tuple(head) + (('orderby',) + terms,) + tuple(tail))
+        if order:
+            o = order[0]
+            rest = tuple(('pair', x[1], ('enum', x[2])) for x in order[1:])
+            foreign = mut.foreign([src], o[1])
+            for k, terms in enumerate((rest + (('pair', foreign, ('enum', 'desc')),), (('feat', foreign),) + rest,
+                                       rest + (('ordering', foreign, 'asc'),), (('feat', foreign), ('dir', ('str', 'desc'))) + rest,
+                                       rest + (('pair', ('expr', 'isnull', foreign), ('str', 'asc')),))):
+                add(f'ordering:foreign-term-{k}', ('chain', src) + tuple(head) + (('orderby',) + terms,) + tuple(tail))
+            if o[1][0] == 'elem':
+                add('ordering:unknown-term', ('chain', src) + tuple(head) + (('orderby', ('feat', ('elem', o[1][1], 'nope'))) + rest,))
+        # (b) the calls in other orders, repeated calls
+        ops = head + ([('orderby',) + tuple(('pair', o[1], ('enum', o[2])) for o in order)] if order else []) + \
+            [('limit', rng.choice((-5, -1, 0, 1, 10, 2 ** 40)), rng.choice((-3, 0, 5)))]
+        add('chain:canonical', ('chain', src) + tuple(ops))
+        add('chain:reversed', ('chain', src) + tuple(reversed(ops)))
+        for _ in range(3):
+            perm = list(ops)
+            rng.shuffle(perm)
+            add('chain:shuffled' + (':grouped' if grp else ''), ('chain', src) + tuple(perm))
+        if cols:
+            c = rng.choice(cols)
+            extra = ('expr', 'notnull', c)
+            add('chain:where-twice', ('chain', src) + tuple(ops) + (('where', extra),))
+            add('chain:where-twice-aliased', ('chain', src) + tuple(ops) + (('where', ('alias', extra, 'p')),))
+            add('chain:where-aliased-first', ('chain', src, ('where', ('alias', extra, 'p'))) + tuple(ops))
+            add('chain:where-twice-not-boolean', ('chain', src) + tuple(ops) + (('where', c if spec.kind(spec.norm_feature(c)) != 'boolean' else lit(1)),))
+            add('chain:having-twice', ('chain', src) + tuple(ops) + (('having', ('expr', 'gt', ('expr', 'count', c), lit(0))), ('having', ('expr', 'lt', ('expr', 'count', c), lit(9)))))
+            add('chain:select-twice', ('chain', src) + tuple(ops) + (('select', c),))
+            add('chain:select-foreign-then-select', ('chain', src, ('select', mut.foreign([src], c)), ('select', c)))
+            add('chain:groupby-then-select', ('chain', src, ('groupby', c), ('select', c, ('alias', ('expr', 'count', c), 'n'))))
+            add('chain:select-then-groupby', ('chain', src, ('select', c, ('alias', ('expr', 'count', c), 'n')), ('groupby', c)))
+            add('chain:on-query', ('chain', query(src, (c,))) + tuple(op for op in ops if op[0] != 'select'))
+    # (c) join kinds
+    pairs = [(S, K, ('expr', 'eq', col(S, 'school'), col(K, 'id'))), (K, ('ref', K, 'o'), ('expr', 'lt', col(K, 'rank'), ('elem', ('ref', K, 'o'), 'rank'))),
+             (S, G, ('expr', 'eq', col(S, 'id'), col(G, 'student')))]
+    for l, r, cond in pairs:
+        for kind in g.JOIN_KINDS:
+            for arg in (('enum', kind), ('str', kind)):
+                add(f'join:{arg[0]}:{kind}:with', ('join', l, r, arg, cond))
+                add(f'join:{arg[0]}:{kind}:without', ('join', l, r, arg, None))
+        for sp in rng.sample(JOIN_SPELLINGS[5:], 5):
+            add('join:str:unknown:with', ('join', l, r, ('str', sp), cond))
+            add('join:str:unknown:without', ('join', l, r, ('str', sp), None))
+        add('join:none:with', ('join', l, r, ('none',), cond))
+        add('join:str:cross:with-aggregate', ('join', l, r, ('str', 'inner'), ('expr', 'eq', ('expr', 'max', cond[2]), cond[3])))
+    return out
+
+
+# literal-sensitive statements: the verdict hangs on the kind of ONE literal
+#  (-0.0 is left out on purpose: 0.0 == -0.0 with one kind, so two statements differing only there are EQUAL objects, and the
+#  lru_cached accessors `statement.prefilter` … hand back the component of whichever was built first — an artefact of
+#  reading back, not of construction)
+HISTORY_VALUES = (True, False, 1, 0, 1.0, 0.0, 2, 2.0, decimal.Decimal(1), decimal.Decimal(0), decimal.Decimal('2.0'), 'a', '1',
+                  'True', '', datetime.date(2020, 1, 1), datetime.datetime(2020, 1, 1), datetime.datetime(2020, 1, 1, 12, 30), (1,), (1.0,), (True,))
+
+
+def history_templates() -> list:
+    """[(name, value -> statement AST)]: conforming exactly for the values of one kind (class)"""
+    sid, sname, sscore, slevel, sact, sborn = (col(S, n) for n in ('id', 'name', 'score', 'level', 'active', 'born'))
+
+    def L(v):
+        return lit_of(v)
+
+    return [
+        ('active==L', lambda v: query(S, [sid], ('expr', 'eq', sact, L(v)))),
+        ('level+L', lambda v: query(S, [('alias', ('expr', 'add', slevel, L(v)), 'x')])),
+        ('score>L', lambda v: query(S, [sid], ('expr', 'gt', sscore, L(v)))),
+        ('name==L', lambda v: query(S, [sid], ('expr', 'eq', sname, L(v)))),
+        ('cond&L', lambda v: query(S, [sid], ('expr', 'and', ('expr', 'gt', slevel, lit(1)), L(v)))),
+        ('born<L', lambda v: query(S, [sid], ('expr', 'lt', sborn, L(v)))),
+        ('taken<L', lambda v: query(G, [col(G, 'id')], ('expr', 'lt', col(G, 'taken'), L(v)))),
+        ('where L', lambda v: query(S, [sid], L(v))),
+        ('select L', lambda v: query(S, [sid, ('alias', L(v), 'x')])),
+        ('L==L', lambda v: query(S, [sid], ('expr', 'eq', L(v), L(v)))),
+        ('having count>L', lambda v: query(S, [sname, ('alias', ('expr', 'count', sid), 'n')], None, [sname], ('expr', 'gt', ('expr', 'count', sid), L(v)))),
+    ]
+
+
+def history_plan(rng, nseq: int, length: int) -> list:
+    """[[step]] — sequences of `reflect` calls and statement constructions to be run each in ONE fresh process.
+    Values that are equal / hash alike across types (True, 1, 1.0, Decimal(1); False, 0, 0.0, -0.0) meet in every order."""
+    templates = history_templates()
+    plans = []
+    for i in range(nseq):
+        steps = []
+        values = list(HISTORY_VALUES)
+        rng.shuffle(values)
+        if i % 3 == 0:  # reflections first (a warm cache), then statements
+            steps += [{'op': 'reflect', 'py': pyval_ast(v)} for v in values[:rng.randrange(4, 12)]]
+        for _ in range(length):
+            name, make = rng.choice(templates)
+            v = rng.choice(values[:10]) if rng.random() < 0.7 else rng.choice(HISTORY_VALUES)
+            steps.append({'op': 'stmt', 'label': f'history:{name}', 'ast': make(v), 'variant': rng.choice((('ctor', 'class', 'ctor', False), ('chain', 'operator', 'ctor', False)))})
+            if rng.random() < 0.15:
+                steps.append({'op': 'reflect', 'py': pyval_ast(rng.choice(HISTORY_VALUES))})
+        plans.append(steps)
+    return plans
+
+
+def run_history(steps: list) -> list:
+    """run the steps one after the other in THIS process"""
+    from forml.io.dsl._struct import kind as kindmod
+
+    out = []
+    for st in steps:
+        if st['op'] == 'reflect':
+            try:
+                out.append({'outcome': 'ok', 'kind': g.kind_ast(kindmod.reflect(pyval_of(tuplify(st['py']))))})
+            except Exception as e:  # pylint: disable=broad-except
+                out.append({'outcome': 'error', 'cls': type(e).__name__, 'err': EXC.get(type(e).__name__, 'other:' + type(e).__name__)})
+        else:
+            out.append(run_impl({'label': st.get('label', 'history'), 'ast': tuplify(st['ast']), 'variant': tuple(st['variant'])}))
+    return out
+
+
+_HISTORY_CHILD = ('import sys, json\n'
+                  'sys.setrecursionlimit(1200)\n'
+                  'sys.path[:0] = json.loads(sys.argv[1])\n'
+                  'import warnings; warnings.filterwarnings("ignore")\n'
+                  'import logging; logging.disable(logging.CRITICAL)\n'
+                  'from props import c07\n'
+                  'steps = json.load(sys.stdin)\n'
+                  'json.dump(c07.run_history(steps), sys.stdout)\n')
+
+
+def run_history_fresh(steps: list, timeout: int = 120) -> list:
+    """run the steps in a fresh interpreter (nothing reflected or constructed before)"""
+    import json
+    import subprocess
+
+    paths = [fw.REPO, os.path.dirname(os.path.dirname(os.path.abspath(__file__)))]
+    res = subprocess.run([sys.executable, '-W', 'ignore', '-c', _HISTORY_CHILD, json.dumps(paths)], input=json.dumps(steps), capture_output=True,
+                         text=True, timeout=timeout, check=False)
+    if res.returncode != 0:
+        raise fw.MachineryError(f'history child failed: {res.stderr[-400:]}')
+    return json.loads(res.stdout)
+
+
 # ---- the check ---------------------------------------------------------------------------------------------------------
 class C07(fw.Check):
     ID = 'C07'
-    LEAN_MODULES = ['ForML.Props.C07']
+    LEAN_MODULES = ['ForML.Props.C07', 'ForML.Props.C07Api']
     DRIVER = 'drv_c07'
     RULE = ('candidate statements over a 4-table catalog: (a) a hand-picked corpus of boundary cases on both sides of '
             'every rule, (b) conforming statements from the typed generator of props/dslgen.py (queries over tables, '
@@ -925,7 +1621,18 @@ class C07(fw.Check):
             'pairs over a reduced alphabet (6 sources x 22 features) plus random multi-clause ones. Each candidate is '
             'built through the public API in one of 16 styles (constructor / chained, operators / classes, origin[name] / '
             'Element, join kind enum / str). A case is distinct by its AST and non-trivial when it has a clause beyond '
-            'the bare source. Oracle: the documented rules evaluated on the AST (Spec), independent of the Lean model.')
+            'the bare source. (e) literals of every python type kind.reflect knows (bool / int / float / str / Decimal / date / '
+            'datetime / list / None) on both sides of the kind rules, and every literal of a generated statement replaced by an '
+            'equal / hash-alike value of another type; sets of sets, references of sets and of queries, aggregates / windows '
+            'at depth 4. (f) api cases — the argument-handling layer: every spelling of the ordering terms (Ordering instances, '
+            'pairs, flat, enum / documented string / any case, default direction, ill-formed ones, a foreign / unknown / '
+            'aliased term at each position), the calls of a statement in canonical, reversed and random orders with and '
+            'without groupby and with repeated where / having / select, join kinds as member / value / unknown string with '
+            'and without condition, row limits of any integers. (g) kind.reflect on shuffled value sequences in the running '
+            'process, and literal histories: sequences of reflections and literal-sensitive statements, each sequence in a fresh '
+            'interpreter, judged step by step (a verdict must not depend on what was reflected or built earlier). Oracle: the '
+            'documented rules evaluated on the AST (Spec) — for a chain of calls on every statement it constructs — '
+            'independent of the Lean model.')
     TRUSTED = [
         'equality of features inside frozenset.issubset / set.difference is hash equality (C08); construct is '
         'proved for structural equality and run with the free hash environment; candidates whose verdict '
@@ -936,8 +1643,20 @@ class C07(fw.Check):
         'window specifications are opaque (the documented visitor does not enter them): features inside '
         'function / partition / ordering of a window are not subject to the element and aggregate rules; window frames '
         'are not modelled',
-        'a candidate is a script of well-typed API calls: operand counts match the classes, directions are '
-        'asc/desc, reference names are non-empty, literals are int/bool/str/float, tables are real dsl.Schema classes',
+        'a candidate is a script of well-typed API calls: operand counts match the classes, reference names are non-empty, '
+        'tables are real dsl.Schema classes (the two regions the theorems exclude as unreachable are checked to be refused '
+        'by the real code on every run); literals are values of the nine python types of the Lean PyVal (a sequence is read '
+        'through its first item, as kind.reflect does; dicts, bytes, numpy scalars are outside); a literal whose reflection '
+        'raises (None, an empty list) makes the line ill-typed wherever it stands — such lines are compared only when '
+        'nothing else is wrong with them',
+        'a literal of a non-plain python type is represented in the shared AST as the cast of its tagged repr to the '
+        'reflected kind (every grammar check reads a literal through .kind only); two sequences with the same first item '
+        'are the same literal for the model',
+        'spellings of a direction other than the four documented lower-case ones (other cases) and ill-formed ordering '
+        'term lists are compared model vs code but not judged: the property is silent about them',
+        'a repeated where / having denotes the AND of the new condition (its operable) and the old one, as documented '
+        '("combine all the conditions"): S.where(c1).where(c2.alias(x)) is the statement with And(c2, c1) although '
+        'S.where(c2.alias(x)) alone is refused',
         'cumulative = aggregate or window: "aggregates do not appear in where-conditions, grouping or join conditions" is '
         'read as the code documents it (series.Cumulative, "expressions involving cross-row operations")',
     ]
@@ -1005,7 +1724,80 @@ class C07(fw.Check):
                   'def directions : List (String × String) := [' + ', '.join(
                       f'("{a}", "{dsl.Ordering.Direction(a).value}")' for a in ('asc', 'ascending', 'desc', 'descending', 'ASC', 'Desc')) + ']',
                   '', 'end ForML.Generated.C07', '']
-        return {'ForML/Generated/C07Tables.lean': '\n'.join(lines)}
+        return {'ForML/Generated/C07Tables.lean': '\n'.join(lines), 'ForML/Generated/C07ApiTables.lean': self._api_tables()}
+
+    @staticmethod
+    def _api_tables() -> str:
+        """the data-like code of the argument-handling layer, read off the live objects: `isinstance(value,
+        primitive.__type__)`, `kind.reflect` on sample values, `Ordering.Direction(spelling)`, `Join.Kind(spelling)`,
+        `Set.Kind` values"""
+        from forml.io import dsl
+        from forml.io.dsl._struct import kind as kindmod
+
+        def b(x) -> str:
+            return 'true' if x else 'false'
+
+        def q(s: str) -> str:
+            return '"' + s.replace('\\', '\\\\').replace('"', '\\"') + '"'
+
+        prims = [getattr(kindmod, n.capitalize())() for n in g.PRIMITIVES]
+        lines = ['/- GENERATED by harness/props/c07.py from the live objects of forml/io/dsl/_struct/{kind,series,frame}.py —',
+                 '   do not edit. -/', 'import ForML.Model.GrammarApi', 'namespace ForML.Generated.C07Api', 'open ForML.Dsl', '',
+                 '/-- the primitive kinds in the order of the columns below, with the name of their `__type__` -/',
+                 'def primitiveTypes : List (Kind × String) := [' + ', '.join(
+                     f'(.{n}, {q(getattr(k.__type__, "__module__", "") + "." + getattr(k.__type__, "__qualname__", str(k.__type__)))})'
+                     for n, k in zip(g.PRIMITIVES, prims)) + ']', '',
+                 '/-- `isinstance(sample, kind.__type__)` for a sample value of every python type against every primitive kind -/',
+                 'def isaTable : List (PyTag × List Bool) := [']
+        rows = []
+        def isa(sample, k) -> bool:
+            try:
+                return isinstance(sample, k.__type__)
+            except Exception:  # pylint: disable=broad-except
+                return False
+
+        for tag, sample in PY_SAMPLE.items():
+            rows.append(f'  (.{tag}, [' + ', '.join(b(isa(sample, k)) for k in prims) + '])')
+        lines += [',\n'.join(rows) + ']', '',
+                  '/-- `kind.reflect(value)` on sample values (`none`: ValueError) -/',
+                  'def reflectTable : List (PyVal × Option Kind) := [']
+        rows = []
+        for v in REFLECT_SAMPLES:
+            try:
+                k = '(some ' + _kind_lean(g.kind_ast(kindmod.reflect(v))) + ')'
+            except Exception:  # pylint: disable=broad-except
+                k = 'none'
+            rows.append(f'  ({pyval_lean(v)}, {k})')
+        lines += [',\n'.join(rows) + ']', '',
+                  '/-- `Ordering.Direction(spelling)` (`none`: ValueError) -/',
+                  'def directionTable : List (String × Option Dir) := [']
+        rows = []
+        for sp in DIRECTION_SPELLINGS:
+            try:
+                d = 'some .asc' if dsl.Ordering.Direction(sp) is dsl.Ordering.Direction.ASCENDING else 'some .desc'
+            except Exception:  # pylint: disable=broad-except
+                d = 'none'
+            rows.append(f'  ({q(sp)}, {d})')
+        lines += [',\n'.join(rows) + ']', '',
+                  '/-- the members of `Ordering.Direction` and their values -/',
+                  'def directionMembers : List (String × String) := [' + ', '.join(f'({q(m.name)}, {q(m.value)})' for m in dsl.Ordering.Direction) + ']', '',
+                  '/-- `Join.Kind(spelling)` (`none`: ValueError) -/',
+                  'def joinKindTable : List (String × Option JoinKind) := [']
+        rows = []
+        for sp in JOIN_SPELLINGS:
+            try:
+                k = f'some .{dsl.Join.Kind(sp).value}'
+                if dsl.Join.Kind(sp).value not in g.JOIN_KINDS:
+                    k = 'none'
+            except Exception:  # pylint: disable=broad-except
+                k = 'none'
+            rows.append(f'  ({q(sp)}, {k})')
+        lines += [',\n'.join(rows) + ']', '',
+                  '/-- the members of `Join.Kind` / `Set.Kind` and their values -/',
+                  'def joinKindMembers : List (String × String) := [' + ', '.join(f'({q(m.name)}, {q(m.value)})' for m in dsl.Join.Kind) + ']',
+                  'def setKindMembers : List (String × String) := [' + ', '.join(f'({q(m.name)}, {q(m.value)})' for m in dsl.Set.Kind) + ']',
+                  '', 'end ForML.Generated.C07Api', '']
+        return '\n'.join(lines)
 
     # ---- generation ------------------------------------------------------------------------------------------------
     def candidates(self) -> list:
@@ -1018,7 +1810,7 @@ class C07(fw.Check):
         def add(label, ast, single=None):
             out.append({'label': label, 'ast': ast, 'variant': r.choice(VARIANTS)})
 
-        for label, ast in corpus():
+        for label, ast in corpus() + rich_corpus():
             for variant in (('ctor', 'class', 'ctor', False), ('chain', 'operator', 'ctor', True)):
                 out.append({'label': label, 'ast': ast, 'variant': variant})
         nbase = self.n(70, 900)
@@ -1029,7 +1821,7 @@ class C07(fw.Check):
                 add('generated:nonconforming', base)  # the shared generator is typed but not the judge
                 continue
             add('conforming', base)
-            muts = mut.all(base)
+            muts = mut.all(base) + mut.literal_mutations(base)
             if len(muts) > per_base:
                 muts = r.sample(muts, per_base)
             for label, m in muts:
@@ -1046,6 +1838,8 @@ class C07(fw.Check):
             via, ops, elem, kindstr = c['variant']
             if elem == 'getitem' and not self._getitem_ok(c['ast'], spec):
                 c['variant'] = (via, ops, 'ctor', kindstr)
+        # the argument-handling layer
+        out.extend(api_cases(r, spec, mut, gen, self.n(12, 150)))
         return out
 
     @staticmethod
@@ -1075,17 +1869,26 @@ class C07(fw.Check):
             results = pool.map(_impl_chunk, chunks, chunksize=1)
         return [o for chunk in results for o in chunk]
 
+    @staticmethod
+    def _line(case: dict) -> str:
+        if case.get('kind') == 'api':
+            return sexp.dumps(let_small(('api', short_small(model_ast(case['api'])))))
+        return sexp.dumps(let_small(('stmt', short_small(model_ast(case['ast'])))))
+
     def _model_all(self, cases: list) -> list:
-        lines = [sexp.dumps(let_small(('stmt', short_small(c['ast'])))) for c in cases]
-        answers = self.model(lines)
+        answers = self.model([self._line(c) for c in cases])
         out = []
-        for a in answers:
+        for a, case in zip(answers, cases):
             x = sexp.loads(a)
-            if not isinstance(x, list) or x[0] != 'stmt':
-                raise fw.MachineryError(f'model driver answered {a[:200]}')
-            res, sch, wf, same = x[1], x[2], x[3], x[4]
-            m = {'outcome': res[0], 'wf': wf == 'true', 'same': same == 'true',
-                 **dict(zip(('normal', 'tame', 'resolvable', 'plain'), (f == 'true' for f in x[5])))}
+            if not isinstance(x, list) or x[0] not in ('stmt', 'api'):
+                raise fw.MachineryError(f'model driver answered {a[:200]} to {self._line(case)[:300]}')
+            res, sch = x[1], x[2]
+            if x[0] == 'api':
+                m = {'outcome': res[0], 'same': x[3] == 'true'}
+            else:
+                m = {'outcome': res[0], 'wf': x[3] == 'true', 'same': x[4] == 'true',
+                     **dict(zip(('normal', 'tame', 'resolvable', 'plain'), (f == 'true' for f in x[5]))),
+                     'regions': dict(zip(REGIONS, (f == 'true' for f in x[6]))) if x[6] else None}
             if res[0] == 'ok':
                 m['stored'] = res[1]
                 m['schema'] = [sch[0], [(n, k) for n, k in sch[1]]] if sch[0] == 'ok' else [sch[0], sch[1]]
@@ -1111,12 +1914,30 @@ class C07(fw.Check):
         unknown = any(e[2] not in {n for n, _ in spec.sig(spec.norm_source(e[1]))} for e in elements_in(ast))
         return {'unnamed': unnamed, 'dup': dup, 'unknown': unknown}
 
+    @staticmethod
+    def oracle_ast(case: dict, spec: Spec):
+        """(status, statement AST the documented rules are evaluated on): a statement case is its own; a chain of calls is
+        judged on the first statement it constructs that breaks a rule, else on the last one"""
+        if case.get('kind') != 'api':
+            return 'ok', case['ast']
+        status, stmts = denote_api(case['api'])
+        if status == 'not-a-script' or not stmts:
+            return 'not-a-script', None
+        for st in stmts:
+            if spec.violations(st):
+                return status, st
+        return status, stmts[-1]
+
     def judge(self, case: dict, impl: dict) -> list:
         """[(what, signature)] — the property evaluated on what the real code did with the candidate"""
-        ast = case['ast']
         spec = Spec()
+        status, ast = self.oracle_ast(case, spec)
+        if status != 'ok':
+            return []  # not a script of documented calls: the property is silent
         broken = spec.violations(ast)
         rules = sorted({r for r, _ in broken})
+        if 'not-a-script' in rules:
+            return []
         out = []
         facts = None
 
@@ -1128,11 +1949,13 @@ class C07(fw.Check):
                     return 'schema-unnamed-output'
             if impl.get('err') == 'lookup' and facts['unknown']:
                 return 'unknown-element-keyerror'
+            if has_list_literal(ast) and 'unhashable' in (impl.get('msg', '') + str(impl.get('schema_msg', ''))):
+                return 'unhashable-literal'
             if facts['dup']:
                 emu = Spec(collapse=True)
                 if (not emu.violations(ast)) == (impl['outcome'] == 'ok'):
                     if impl['outcome'] != 'ok' or impl['schema'][0] != 'ok' or \
-                            [tuple(x) for x in impl['schema'][1]] == list(emu.expected_schema(ast)):
+                            list(tuplify(impl['schema'][1])) == list(tuplify(emu.expected_schema(ast))):
                         return 'schema-duplicate-names'
             return default
 
@@ -1145,12 +1968,12 @@ class C07(fw.Check):
                 got = impl['schema']
                 if got[0] != 'ok':
                     out.append((f'.schema of a constructed statement raises ({got[1]})', attribute(f'schema-raises:{got[1]}')))
-                elif [tuple(x) for x in got[1]] != want and not any(n is None for n, _ in want):
+                elif list(tuplify(got[1])) != list(tuplify(want)) and not any(n is None for n, _ in want):
                     out.append((f'.schema lists {len(got[1])} fields {got[1][:4]} for the {len(want)} output features {want[:4]}',
                                 attribute('schema-differs')))
                 elif any(n is None for n, _ in want):
                     # an un-named output: its position and kind must still be listed
-                    if len(got[1]) != len(want) or [k for _, k in got[1]] != [k for _, k in want]:
+                    if len(got[1]) != len(want) or [tuplify(k) for _, k in got[1]] != [tuplify(k) for _, k in want]:
                         out.append(('.schema does not list the un-named output features', attribute('schema-differs')))
         else:
             if impl['outcome'] == 'ok':
@@ -1161,8 +1984,9 @@ class C07(fw.Check):
         return out
 
     @staticmethod
-    def _compare(impl: dict, model: dict) -> list:
-        """[(what, impl, model)] — observable behaviour of the real constructors vs the Lean model"""
+    def _compare(impl: dict, model: dict, structure: bool = True) -> list:
+        """[(what, impl, model)] — observable behaviour of the real constructors vs the Lean model (`structure=False`:
+        outcome and schema only)"""
         outcome = 'ok' if impl['outcome'] == 'ok' else impl['err']
         mo = 'ok' if model['outcome'] == 'ok' else model['err']
         if mo != outcome:
@@ -1170,7 +1994,7 @@ class C07(fw.Check):
         out = []
         if outcome == 'ok':
             stored = sexp.loads(sexp.dumps(impl['stored'])) if not isinstance(impl['stored'], str) else impl['stored']
-            if stored != model['stored']:
+            if structure and stored != model['stored']:
                 out.append(('stored structure', sexp.dumps(impl['stored'])[:300], sexp.dumps(model['stored'])[:300]))
             isch = [impl['schema'][0], [[n, sexp.loads(sexp.dumps(k))] for n, k in impl['schema'][1]] if impl['schema'][0] == 'ok' else impl['schema'][1]]
             msch = [model['schema'][0], [[n, k] for n, k in model['schema'][1]] if model['schema'][0] == 'ok' else model['schema'][1]]
@@ -1202,56 +2026,272 @@ class C07(fw.Check):
     def _nodes(ast) -> int:
         return 1 + sum(C07._nodes(a) for a in ast if isinstance(a, tuple)) if isinstance(ast, tuple) else 0
 
+    def _account(self, case, impl, spec, i, verdicts):
+        status, ast = self.oracle_ast(case, spec)
+        broken = spec.violations(ast) if ast is not None else []
+        conforming = not broken
+        outcome = 'ok' if impl['outcome'] == 'ok' else impl['err']
+        if case.get('kind') == 'api':
+            key = ('api', case['api'])
+            shape = ':'.join(case['label'].split(':')[:3])
+            nontrivial = True
+            text = sexp.dumps(short_small(case['api']))[:240]
+        else:
+            key = ('stmt', case['ast'])
+            label = case['label']
+            shape = label.split(':')[0] + (':' + label.split(':')[1] if label.startswith(('small', 'edge', 'literal', 'history')) and ':' in label else '')
+            nontrivial = case['ast'][0] != 'table' and self._nodes(case['ast']) >= 4
+            text = sexp.dumps(short_small(case['ast']))[:240]
+        verdicts[('not-a-script' if status == 'not-a-script' else 'conforming' if conforming else 'violating') + ' -> ' + outcome] += 1
+        self.case(key, shape, nontrivial=nontrivial,
+                  sample={'label': case['label'], 'stmt': text, 'impl': outcome,
+                          'oracle': status if status != 'ok' else 'conforming' if conforming else sorted({r for r, _ in broken})} if i % 211 == 0 else None)
+        return status, conforming, broken
+
     def correspondence(self):
+        import time
+        t0 = time.time()
+        phases = self.extra.setdefault('phase_seconds', {})
         cases = self.candidates()
+        phases['generate'] = round(time.time() - t0, 1)
         impls = self._impl_all(cases)
+        phases['implementation'] = round(time.time() - t0, 1)
         models = self._model_all(cases)
+        phases['model'] = round(time.time() - t0, 1)
         spec = Spec()
-        self.extra['verdicts'] = {}
         verdicts: collections.Counter = collections.Counter()
         domain: collections.Counter = collections.Counter()
+        regions: collections.Counter = collections.Counter()
         for i, (case, impl, model) in enumerate(zip(cases, impls, models)):
-            ast = case['ast']
-            broken = spec.violations(ast)
-            conforming = not broken
-            key = ('stmt', ast)
-            shape = case['label'].split(':')[0] + (':' + case['label'].split(':')[1] if case['label'].startswith(('small', 'edge')) and ':' in case['label'] else '')
-            outcome = 'ok' if impl['outcome'] == 'ok' else impl['err']
-            verdicts[('conforming' if conforming else 'violating') + ' -> ' + outcome] += 1
-            nontrivial = ast[0] != 'table' and self._nodes(ast) >= 4
-            self.case(key, shape, nontrivial=nontrivial,
-                      sample={'label': case['label'], 'stmt': sexp.dumps(short_small(ast))[:240], 'impl': outcome,
-                              'oracle': 'conforming' if conforming else sorted({r for r, _ in broken})} if i % 211 == 0 else None)
+            status, conforming, broken = self._account(case, impl, spec, i, verdicts)
             # model vs implementation
             if not model['same']:
                 self.histogram['(verdict depends on a hash collision: not judged)'] += 1
                 continue
             mo = 'ok' if model['outcome'] == 'ok' else model['err']
-            if model['normal'] and model['tame']:
-                # the region of C07_iff_partial / C07_stored (and, if resolvable, of C07_error_kind_partial): what the
-                # compiled model computes must be what the theorems say
-                domain['iff'] += 1
-                want = 'ok' if model['wf'] else ('grammar' if model['resolvable'] else None)
-                domain['error_kind'] += model['resolvable']
-                if (mo == 'ok') != model['wf'] or (want is not None and mo != want):
-                    self.diverge('driver vs theorem C07_construct_eq', {'case': _jsonable(case)}, want, mo)
-                if mo == 'ok' and model['plain']:
-                    domain['schema'] += 1
-                    if model['schema'][0] != 'ok':
-                        self.diverge('driver vs theorem C07_schema_partial', {'case': _jsonable(case)}, 'ok', model['schema'])
-            for what, a, b in self._compare(impl, model):
-                self.diverge(what, {'case': _jsonable(case)}, a, b)
-            # Lean WellFormed vs the Python oracle (two independent transcriptions of the documented rules)
-            if model['wf'] != conforming and self._normal(ast, spec):
-                self.diverge('Lean WellFormed vs Python oracle', {'case': _jsonable(case)}, 'conforming' if conforming else broken[:3], model['wf'])
+            if case.get('kind') != 'api' and model.get('regions') is not None:
+                reg = model['regions']
+                inside = [k for k in REGIONS if reg[k]]
+                regions[','.join(inside) or 'outside every excluded region'] += 1
+                if model['tame']:
+                    # the region of C07_iff_denotation / C07_stored_denotation (and, if resolvable, of C07_error_kind_denotation):
+                    # what the compiled model computes must be what the theorems say
+                    domain['iff'] += 1
+                    domain['iff_not_normal'] += not model['normal']
+                    want = 'ok' if model['wf'] else ('grammar' if model['resolvable'] else None)
+                    domain['error_kind'] += model['resolvable']
+                    if (mo == 'ok') != model['wf'] or (want is not None and mo != want):
+                        self.diverge('driver vs theorem C07_construct_eq', {'case': _jsonable(case)}, want, mo)
+                    if mo == 'ok' and model['plain']:
+                        domain['schema'] += 1
+                        if model['schema'][0] != 'ok':
+                            self.diverge('driver vs theorem C07_schema_partial', {'case': _jsonable(case)}, 'ok', model['schema'])
+                if not any(reg[k] for k in ('unnamed', 'duplicate', 'unknown', 'dupTable', 'illTyped')):
+                    # C07_outside_findings: outside F1-F3 and the two unreachable regions the model is the characteristic function
+                    # of the grammar, and what it stores is the denotation (here: the oracle's own normal form of the script)
+                    domain['outside_findings'] += 1
+                    if mo != ('ok' if model['wf'] else 'grammar'):
+                        self.diverge('driver vs theorem C07_outside_findings', {'case': _jsonable(case)}, 'ok' if model['wf'] else 'grammar', mo)
+                    if mo == 'ok' and status == 'ok' and not has_rich_literal(case['ast']):
+                        want = sexp.loads(sexp.dumps(spec.norm_source(case['ast'])))
+                        if model['stored'] != want:
+                            self.diverge('Lean denotation (Source.norm) vs the oracle\'s normal form', {'case': _jsonable(case)},
+                                         sexp.dumps(want)[:300], sexp.dumps(model['stored'])[:300])
+                # Lean WellFormed (of the denotation) vs the Python oracle (two independent transcriptions of the documented rules)
+                if status == 'ok' and 'not-a-script' not in {r for r, _ in broken} and model['wf'] != conforming:
+                    self.diverge('Lean WellFormed vs Python oracle', {'case': _jsonable(case)}, 'conforming' if conforming else broken[:3], model['wf'])
+            if not has_list_literal(case.get('ast', case.get('api'))):  # the model has no notion of (un)hashable values (C07-F4)
+                # in which order a repeated where / having AND-combines its conditions is not the property's business
+                repeated = case.get('kind') == 'api' and any(sum(op[0] == k for op in case['api'][2:] if isinstance(op, tuple)) +
+                                                             (case['api'][1][0] == 'query' and case['api'][1][i] is not None) > 1
+                                                             for k, i in (('where', 3), ('having', 5))) if case.get('kind') == 'api' and case['api'][0] == 'chain' else False
+                for what, a, b in self._compare(impl, model, structure=not repeated):
+                    self.diverge(what, {'case': _jsonable(case)}, a, b)
             # the property on the real code
             for what, sig in self.judge(case, impl):
-                self.violate(f'{what} [{case["label"]}]', {'kind': 'stmt', **_jsonable(case)}, sig,
+                self.violate(f'{what} [{case["label"]}]', {'kind': case.get('kind', 'stmt'), **_jsonable(case)}, sig,
                              detail={'impl': {k: v for k, v in impl.items() if k != 'stored'}, 'oracle': broken[:5]})
         self.extra['verdicts'] = {k: v for k, v in sorted(verdicts.items())}
         self.extra['cases_in_theorem_domain'] = dict(domain)
+        self.extra['cases_by_excluded_region'] = dict(regions)
+        phases['judge'] = round(time.time() - t0, 1)
+        self._reflect_stream()
+        self._history_stream(spec)
+        phases['histories'] = round(time.time() - t0, 1)
+        self._unreachable_regions()
         if not self.quick:
             self._selftest(cases, impls)
+
+    # ---- kind.reflect, literal histories -----------------------------------------------------------------------------
+    def _reflect_model(self, values: list) -> list:
+        answers = self.model([sexp.dumps(('reflect', model_py(pyval_ast(v)))) for v in values])
+        out = []
+        for a in answers:
+            x = sexp.loads(a)
+            if not isinstance(x, list) or x[0] != 'reflect':
+                raise fw.MachineryError(f'model driver answered {a[:200]}')
+            out.append(x[1][1] if x[1][0] == 'ok' else None)
+        return out
+
+    def _reflect_stream(self):
+        """`kind.reflect` on value sequences in this process (whatever was reflected before): the Lean `reflect`, the real
+        one and the documented kind of the python type must agree at every position"""
+        from forml.io.dsl._struct import kind as kindmod
+
+        r = self.rng
+        values = list(REFLECT_SAMPLES) + [r.choice(REFLECT_SAMPLES) for _ in range(self.n(60, 600))]
+        r.shuffle(values)
+        modelled = self._reflect_model(values)
+        for i, (v, m) in enumerate(zip(values, modelled)):
+            a = pyval_ast(v)
+            try:
+                got = g.kind_ast(kindmod.reflect(v))
+            except ValueError:
+                got = None
+            except Exception as e:  # pylint: disable=broad-except
+                got = 'raises:' + type(e).__name__
+            want = py_kind(a)
+            self.case(('reflect', a, i), 'reflect:' + a[0], nontrivial=True, sample=None)
+            got_s = None if got is None else sexp.loads(sexp.dumps(got))
+            if got_s != m:
+                self.diverge('kind.reflect', {'reflect': list(a), 'position': i, 'before': [list(pyval_ast(x)) for x in values[max(0, i - 6):i]]}, got, m)
+            if (None if want is None else sexp.loads(sexp.dumps(want))) != m:
+                raise fw.MachineryError(f'Lean reflect {m} and the documented kind {want} of {v!r} differ')
+
+    def _judge_history(self, steps: list, results: list, spec: Spec, models: dict) -> list:
+        """[(index, what, signature)] of one sequence"""
+        out = []
+        for i, (st, res) in enumerate(zip(steps, results)):
+            if st['op'] == 'reflect':
+                want = py_kind(tuplify(st['py']))
+                got = res.get('kind') if res['outcome'] == 'ok' else None
+                if (None if got is None else tuplify(got)) != want:
+                    out.append((i, f'kind.reflect({pyval_of(tuplify(st["py"]))!r}) is {got} after {i} earlier steps', None))
+                continue
+            case = {'label': st['label'], 'ast': tuplify(st['ast']), 'variant': tuple(st['variant'])}
+            for what, sig in self.judge(case, res):
+                out.append((i, what, sig))
+        return out
+
+    def _history_stream(self, spec: Spec):
+        """literal-sensitive statements in sequences, each sequence in a fresh interpreter: the verdict on a statement must
+        not depend on what was reflected or constructed earlier in the process"""
+        import concurrent.futures
+
+        plans = history_plan(self.rng, self.n(10, 60), self.n(24, 40))
+        with concurrent.futures.ThreadPoolExecutor(max_workers=min(8, len(plans))) as ex:
+            results = list(ex.map(run_history_fresh, plans))
+        # the model's verdict on every distinct statement (a pure function: position-free by construction)
+        distinct = {}
+        for steps in plans:
+            for st in steps:
+                if st['op'] == 'stmt':
+                    distinct.setdefault(tuplify(st['ast']), {'label': st['label'], 'ast': tuplify(st['ast']), 'variant': tuple(st['variant'])})
+        keys = list(distinct)
+        models = dict(zip(keys, self._model_all([distinct[k] for k in keys])))
+        verdict_by_stmt: dict = {}
+        nsteps = 0
+        for steps, res in zip(plans, results):
+            for i, (st, rs) in enumerate(zip(steps, res)):
+                nsteps += 1
+                if st['op'] != 'stmt':
+                    continue
+                ast = tuplify(st['ast'])
+                outcome = 'ok' if rs['outcome'] == 'ok' else rs['err']
+                verdict_by_stmt.setdefault(ast, set()).add(outcome)
+                self.case(('history', ast, i), st['label'], nontrivial=True, sample=None)
+                m = models[ast]
+                case = {'label': st['label'], 'ast': ast, 'variant': tuple(st['variant'])}
+                for what, a, b in self._compare(rs, m):
+                    self.diverge('history: ' + what, {'case': _jsonable(case), 'position': i}, a, b)
+            for i, what, sig in self._judge_history(steps, res, spec, models):
+                self._report_history(steps, i, what, sig)
+        unstable = {k: v for k, v in verdict_by_stmt.items() if len(v) > 1}
+        self.extra['literal_histories'] = {'sequences': len(plans), 'steps': nsteps, 'distinct_statements': len(keys),
+                                           'statements_with_order_dependent_verdict': len(unstable)}
+
+    def _report_history(self, steps: list, index: int, what: str, sig):
+        """shrink the history in front of a failing step (alone? one earlier step? the whole prefix?) and report it"""
+        import concurrent.futures
+
+        failing = steps[index]
+        key = ('history', sexp.dumps(failing.get('ast', failing.get('py'))))
+        if key in self._reported:
+            return
+        self._reported.add(key)
+
+        def fails(seq) -> bool:
+            res = run_history_fresh(seq)
+            return any(i == len(seq) - 1 for i, _, _ in self._judge_history(seq, res, Spec(), {}))
+
+        self._shrunk += 1
+        if self._shrunk > 6:  # enough witnesses (every one costs fresh interpreters): the rest is only counted
+            self.extra['history_failures_not_reported'] = self.extra.get('history_failures_not_reported', 0) + 1
+            return
+        if fails([failing]):
+            prefix = []
+        elif self._shrunk > 3:
+            prefix = steps[:index]
+        else:
+            prefix = steps[:index]
+            seen, cands = set(), []
+            for p in reversed(prefix):  # one earlier step + the failing one, distinct earlier steps only, the latest first
+                k = sexp.dumps(p.get('ast', p.get('py')))
+                if k not in seen:
+                    seen.add(k)
+                    cands.append([p, failing])
+            cands = cands[:18]
+            with concurrent.futures.ThreadPoolExecutor(max_workers=6) as ex:
+                hits = [c for c, bad in zip(cands, ex.map(fails, cands)) if bad]
+            if hits:
+                prefix = hits[0][:1]
+        witness = {'kind': 'history', 'steps': _jsonable_steps(prefix + [failing])}
+        if failing['op'] == 'stmt' and not prefix:
+            witness = {'kind': 'stmt', 'label': failing['label'], 'ast': failing['ast'], 'variant': list(failing['variant'])}
+        signature = sig if not prefix else 'history-dependent:' + (sig or 'reflect')
+        def show(st) -> str:
+            if st['op'] == 'reflect':
+                return 'reflect ' + repr(pyval_of(tuplify(st['py'])))
+            lits = [repr(pyval_of(x[1])) for x in _py_literals(tuplify(st['ast']))]
+            return st['label'].split(':', 1)[-1] + ' with L = ' + ', '.join(dict.fromkeys(lits))
+
+        self.violate(f'{what}' + (f' — after {len(prefix)} earlier step(s) in the same process: {[show(s) for s in prefix][:2]}' if prefix else '') +
+                     f' [{failing.get("label", "reflect")}]', witness, signature or 'reflect-kind')
+
+    _reported: set = set()
+    _shrunk = 0
+
+    def _unreachable_regions(self):
+        """the two regions the theorems exclude as unreachable, on the real code: a schema with a repeated field name cannot
+        be declared, and a call with the wrong number of operands is refused by Python itself"""
+        from forml.io import dsl
+        from forml.io.dsl import function
+
+        notes = {}
+        try:
+            import types
+            fields = {'a': dsl.Field(dsl.Integer(), name='x'), 'b': dsl.Field(dsl.String(), name='x')}
+            types.new_class('Dup', (dsl.Schema,), {}, lambda ns: ns.update(fields))
+            notes['repeated field name'] = 'declared'
+        except Exception as e:  # pylint: disable=broad-except
+            notes['repeated field name'] = type(e).__name__
+        b = Builder('ctor', 'class', 'ctor')
+        sid = b.feature(col(S, 'id'))
+        for name, call in (('Addition(x)', lambda: function.Addition(sid)), ('Sum(x, y)', lambda: function.Sum(sid, sid)),
+                           ('RowNumber() + 1', lambda: function.RowNumber() + 1), ('Count(RowNumber())', lambda: function.Count(function.RowNumber()))):
+            try:
+                call()
+                notes[name] = 'constructed'
+            except Exception as e:  # pylint: disable=broad-except
+                notes[name] = type(e).__name__
+        self.extra['unreachable_regions_on_the_real_code'] = notes
+        self.case(('unreachable', tuple(sorted(notes.items()))), 'unreachable-regions', nontrivial=True, sample=None)
+        if notes['repeated field name'] == 'declared':
+            self.violate('a schema with a repeated field name can be declared (the model excludes such tables as unreachable)',
+                         {'kind': 'dup-schema'}, 'dup-schema-declared')
+        for name in ('Addition(x)', 'Sum(x, y)', 'RowNumber() + 1', 'Count(RowNumber())'):
+            if notes[name] not in ('TypeError', 'ValueError'):
+                self.diverge('ill-typed call', {'call': name}, notes[name], 'TypeError/ValueError')
 
     @staticmethod
     def _normal(ast, spec) -> bool:
@@ -1263,39 +2303,118 @@ class C07(fw.Check):
 
     def search(self, reason):
         # widen around the diverging candidates: all their single-rule mutations, judged on the real code
+        import time
+        t0 = time.time()
         spec = Spec()
         mut = Mutator(self.rng, spec)
-        seeds = [tuplify(d.case['case']['ast']) for d in self.divergences if isinstance(d.case, dict) and 'case' in d.case][:30]
+        seeds = [tuplify(d.case['case']['ast']) for d in self.divergences
+                 if isinstance(d.case, dict) and 'case' in d.case and 'ast' in d.case['case']][:30]
+        api_seeds = [tuplify(d.case['case']['api']) for d in self.divergences
+                     if isinstance(d.case, dict) and 'case' in d.case and 'api' in d.case['case']][:30]
+        reflected = [d for d in self.divergences if isinstance(d.case, dict) and 'reflect' in d.case]
         cases = []
-        if not seeds:  # a proof obligation broke: re-judge a fresh, larger sample
+        if not seeds and not api_seeds:  # a proof obligation broke / only reflect diverged: re-judge a fresh, larger sample
             gen = g.Gen(self.rng, small_ints=True)
             seeds = [gen.statement(2) for _ in range(60)]
         for s in seeds:
             cases.append({'label': 'search:seed', 'ast': s, 'variant': ('ctor', 'class', 'ctor', False)})
             try:
-                for label, m in mut.all(s)[:60]:
+                for label, m in (mut.all(s) + mut.literal_mutations(s))[:60]:
                     cases.append({'label': 'search:' + label, 'ast': m, 'variant': ('ctor', 'class', 'ctor', False)})
             except Exception:  # pylint: disable=broad-except
                 pass
+        for api in api_seeds:
+            cases.append({'kind': 'api', 'label': 'search:api-seed', 'api': api})
+            if api[0] == 'chain':  # the same calls in every rotation, and each call alone
+                ops = list(api[2:])
+                for k in range(1, len(ops)):
+                    cases.append({'kind': 'api', 'label': 'search:api-rotated', 'api': ('chain', api[1]) + tuple(ops[k:] + ops[:k])})
+                for op in ops:
+                    cases.append({'kind': 'api', 'label': 'search:api-single-call', 'api': ('chain', api[1], op)})
+            else:
+                for kind in g.JOIN_KINDS:
+                    for arg in (('enum', kind), ('str', kind)):
+                        for cond in (api[4], None):
+                            cases.append({'kind': 'api', 'label': 'search:api-join', 'api': ('join', api[1], api[2], arg, cond)})
         for case, impl in zip(cases, self._impl_all(cases)):
             for what, sig in self.judge(case, impl):
-                self.violate(f'{what} [{case["label"]}]', {'kind': 'stmt', **_jsonable(case)}, sig)
-        self.notes.append(f'failing-input search ({reason}): {len(cases)} candidates around {len(seeds)} seeds')
+                self.violate(f'{what} [{case["label"]}]', {'kind': case.get('kind', 'stmt'), **_jsonable(case)}, sig)
+        self.extra.setdefault('phase_seconds', {})['search'] = round(time.time() - t0, 1)
+        if not reflected and not reason.startswith('broken'):
+            self.notes.append(f'failing-input search ({reason}): {len(cases)} candidates around {len(seeds)} + {len(api_seeds)} seeds')
+            return
+        # kind.reflect disagreed (or a table theorem broke): literal-sensitive statements in histories around the values
+        import concurrent.futures
+        templates = history_templates()
+        values = [pyval_of(tuplify(d.case['reflect'])) for d in reflected][:6] or list(HISTORY_VALUES[:8])
+        before = [pyval_of(tuplify(x)) for d in reflected[:3] for x in d.case.get('before', [])]
+        plans = []
+        for v in values:
+            warm = [{'op': 'reflect', 'py': pyval_ast(x)} for x in (before or HISTORY_VALUES[:8])]
+            plans.append(warm + [{'op': 'stmt', 'label': f'search:history:{name}', 'ast': make(v), 'variant': ('ctor', 'class', 'ctor', False)}
+                                 for name, make in templates])
+            plans.append(list(reversed(plans[-1])))
+        plans = plans[:10]
+        with concurrent.futures.ThreadPoolExecutor(max_workers=5) as ex:
+            outcomes = list(ex.map(run_history_fresh, plans))
+        for steps, res in zip(plans, outcomes):
+            for i, what, sig in self._judge_history(steps, res, spec, {}):
+                if steps[i]['op'] == 'stmt':
+                    self._report_history(steps, i, what, sig)
+        self.notes.append(f'failing-input search ({reason}): {len(cases)} candidates around {len(seeds)} + {len(api_seeds)} seeds, {len(plans)} literal histories')
 
     def replay_finding(self, entry):
         w = entry['witness']
-        if w.get('kind') != 'stmt':
-            return None
-        case = {'label': w.get('label', 'replay'), 'ast': tuplify(w['ast']), 'variant': tuple(w.get('variant', ('ctor', 'class', 'ctor', False)))}
-        impl = run_impl(case)
         wanted = entry.get('signature')
+        if w.get('kind') == 'history':
+            steps = [dict(st) for st in w['steps']]
+            res = run_history_fresh(steps)
+            for i, what, sig in self._judge_history(steps, res, Spec(), {}):
+                sig = 'history-dependent:' + (sig or 'reflect') if len(steps) > 1 else sig
+                if i == len(steps) - 1 and (wanted is None or sig == wanted):
+                    return fw.Violation(what, w, sig)
+            return None
+        if w.get('kind') == 'api':
+            case = {'kind': 'api', 'label': w.get('label', 'replay'), 'api': tuplify(w['api'])}
+        elif w.get('kind') == 'stmt':
+            case = {'label': w.get('label', 'replay'), 'ast': tuplify(w['ast']), 'variant': tuple(w.get('variant', ('ctor', 'class', 'ctor', False)))}
+        else:
+            return None
+        impl = run_impl(case)
         for what, sig in self.judge(case, impl):
             if wanted is None or sig == wanted:
                 return fw.Violation(what, w, sig)
         return None
 
 
+REGIONS = ('dupTable', 'unnamed', 'duplicate', 'unkinded', 'unknown', 'illTyped')
+
+
+def _py_literals(ast):
+    """('py', PY) of every literal of an AST"""
+    if isinstance(ast, tuple):
+        if len(ast) == 2 and ast[0] == 'lit' and isinstance(ast[1], tuple):
+            yield ast[1] if ast[1][0] == 'py' else ('py', ast[1])
+        else:
+            for a in ast:
+                yield from _py_literals(a)
+
+
+def has_rich_literal(ast) -> bool:
+    if isinstance(ast, tuple):
+        if len(ast) == 2 and ast[0] == 'lit' and isinstance(ast[1], tuple) and ast[1] and ast[1][0] == 'py':
+            return True
+        return any(has_rich_literal(a) for a in ast)
+    return False
+
+
+def _jsonable_steps(steps: list) -> list:
+    return [{k: (list(v) if isinstance(v, tuple) else v) for k, v in st.items()} for st in steps]
+
+
 def _jsonable(case: dict) -> dict:
+    if case.get('kind') == 'api':
+        return {'label': case['label'], 'api': case['api']}
     return {'label': case['label'], 'ast': case['ast'], 'variant': list(case['variant'])}
 
 
